@@ -31,7 +31,7 @@ Step ==
               \cup (IF ~reset /\ phase # "idle" THEN {"BlockStructure"} ELSE {})
               \cup (IF ~reset /\ halted THEN {"NoBlockAfterHalt"} ELSE {})
               \cup (IF ~reset /\ e.h # height + 1 THEN {"HeightsContiguous"} ELSE {})
-              \cup (IF ~reset /\ ~(e.t = now ++ e.dt /\ e.dt \succeq MinGap) THEN {"TimeAdvances"} ELSE {})
+              \cup (IF ~reset /\ ~(e.tn = now ++ e.dtn /\ e.dtn \succeq MinGap) THEN {"TimeAdvances"} ELSE {})
            ELSE IF isEnd THEN
               (IF e.ok THEN {} ELSE (IF DevId(e) \in KNOWN THEN {"KNOWN:" \o DevId(e)} ELSE {"EndBlockCompletes"}))
               \cup (IF phase # "open" \/ halted THEN {"BlockStructure"} ELSE {})
@@ -41,7 +41,7 @@ Step ==
      IN /\ hist' = e.hist
         /\ phase' = IF isBegin THEN "open" ELSE IF isEnd THEN "idle" ELSE phase
         /\ height' = IF isBegin THEN e.h ELSE height
-        /\ now' = IF isBegin THEN e.t ELSE now
+        /\ now' = IF isBegin THEN e.tn ELSE now
         /\ halted' = IF isBegin THEN ~e.ok ELSE IF isEnd THEN ~e.ok ELSE halted
         /\ viol' = AddViol(viol, l, bad)
         /\ l' = l + 1
